@@ -1,7 +1,7 @@
 #!/venv/bin/python
 """A frame whose payload is not valid UTF-8 ends the daemon: IPCBase.read() decodes outside any handler
 (UnicodeDecodeError is not even an OSError, so dmypy_util.receive's documented contract does not cover it).
-key: daemon-died:on-faulty-connection:UnicodeDecodeError@ipc.py:read
+key: daemon-died:on-faulty-connection:UnicodeDecodeError@ipc.py:read:via=receive
 
 Standalone: /venv/bin/python invalid_utf8_kills_daemon.py   (VERIF_REPO=<dir> to test another checkout)
 exit 1 = defect present, 0 = absent, 2 = could not run."""
